@@ -12,7 +12,7 @@ ASSUMPTIONS = [
     'bounded in the graph: hand-made corner cases (dead ends, multi-edges, gaps in node ids, single node, all-initial) plus seeded random graphs (<= 3 nodes quick, <= 4 thorough); '
     'per graph the proof is for ALL edge formulas (uninterpreted predicates over primed and unprimed bits) and all valuations',
     'node labels and assignment labels are concrete (the translator refuses to prime a BDD reference)',
-    'receptive=True: only checked not to change the owner\'s action / initial condition (the property does not define the assumption added)',
+    'receptive=True: the assumption added to the environment\'s action is read as "at each node with successors the environment part (edge formula, assignments to environment variables) of some outgoing edge\'s label holds" (docstring: prevent env from blocking sys); the property itself only says the action is then no longer unconstrained',
 ]
 EXPLANATION = (
     'graph_to_logic is re-extracted and run on a concrete graph whose edge formulas are references to uninterpreted predicates; for each node u the '
